@@ -393,6 +393,10 @@ func (w *World) loopHead(fr *Frame, st *State, h *ssa.BasicBlock, k int) {
 		w.sc.assume(implies(st.cond, w.evalBool(env, inv.Expr)))
 		w.noteQuantFacts(st.cond, env, inv.Expr)
 	}
+	if fr.loopHeads == nil {
+		fr.loopHeads = map[int]*State{}
+	}
+	fr.loopHeads[k] = st.clone()
 	if ls.Deterministic && fr.top {
 		w.loopDeterminism(fr, st, h, k, ls, cells, keys)
 	} else if fr.top && fr.contract != nil && fr.contract.Opts["maprange"] == "deterministic" {
@@ -558,6 +562,10 @@ func (w *World) loopStep(fr *Frame, st *State, h *ssa.BasicBlock, k int) {
 	for _, inv := range ls.Invariants {
 		env := w.contractEnv(fr, st, fr.entry)
 		w.oblige("loop.step", fmt.Sprintf("loop%d.step%s.%s", k, ord, inv.Label), st.cond, w.skolemGoal(env, inv.Expr), inv.Star, fr.contract.Props)
+	}
+	for _, rel := range ls.Steps {
+		env := w.contractEnv(fr, st, fr.entry)
+		w.oblige("loop.rel", fmt.Sprintf("loop%d.rel%s.%s", k, ord, rel.Label), st.cond, w.skolemGoal(env, rel.Expr), rel.Star, fr.contract.Props)
 	}
 }
 
